@@ -36,6 +36,8 @@ def tokenizeGo : Nat → List Char → Option (List Char) → List String → Ex
       | _ :: rest' => tokenizeGo f rest' none (String.ofList (c :: body ++ [c]) :: acc)
     else if isSpaceC c then tokenizeGo f cs none (flush acc)
     else if c = '-' ∧ cur.isSome then tokenizeGo f cs (cur.map (c :: ·)) acc
+    else if XalanModel.Generated.C02.compoundOperatorTokens ∧ (c = '!' ∨ c = '<' ∨ c = '>') ∧ cs.head? = some '=' then
+      tokenizeGo f cs.tail none (String.ofList [c, '='] :: flush acc)
     else if c = '-' ∨ isSymbolC c then tokenizeGo f cs none (String.singleton c :: flush acc)
     else if c = ':' then .error .unsupported
     else
@@ -85,7 +87,8 @@ def annotate : List String → Nat → Nat → Option (List Tok)
           if t = "*" then some .star else if t = "(" then some .lpar else if t = ")" then some .rpar
           else if t = "-" then some .minus else if t = "+" then some .plus else if t = "=" then some .eq
           else if t = "!" then some .bang else if t = "<" then some .lt else if t = ">" then some .gt
-          else if t = "|" then some .bar else none
+          else if t = "|" then some .bar else if t = "!=" then some .neq else if t = "<=" then some .leq
+          else if t = ">=" then some .geq else none
         match sym with
         | some k => (annotate ts (idx + 1) nnum).map (k :: ·)
         | none => none
